@@ -8,7 +8,7 @@ def _one(case, hooks=False):
     rec = asmio.assemble(list(lines), hooks=hooks)
     t = asmio.trace_of(tid, prog, lines, rec)
     extra = {"exc": rec["exc"], "site": rec["site"], "msg": rec["msg"], "adapter": rec["adapter"], "input_intact": rec["input_intact"],
-             "hooks": rec["hooks"], "name": rec["name"]}
+             "hooks": rec["hooks"], "name": rec["name"], "stmts": rec["stmts"]}
     return t, extra
 
 
@@ -47,7 +47,7 @@ def run(cases, nproc=16, chunksize=200, hooks=False):
                 CONFIRMED += 1
             else:
                 res[k] = (t2, {"exc": rec["exc"], "site": rec["site"], "msg": rec["msg"], "adapter": rec["adapter"], "input_intact": rec["input_intact"],
-                               "hooks": rec["hooks"], "name": rec["name"]})
+                               "hooks": rec["hooks"], "name": rec["name"], "stmts": rec["stmts"]})
     traces = [t for t, _ in res]
     extras = {t["id"]: x for t, x in res}
     return traces, extras
